@@ -116,7 +116,7 @@ Definition check_case (c : case) : N :=
         && hdr_eqb_except [H_VARY; H_CT; H_CE; H_CL] i_hdr (o_hdr up)
         && vary_ok i_hdr (o_hdr up) && ct_ok in
       let spec := negb i_panic && (i_code =? o_code up) && info_ok i_info (o_info up) && (identity || compressed) in
-      let region := if q0_region ae then Some 1 else None in
+      let region : option N := None in   (* no known-finding region is left (F-C17-1 fixed by 7cff601 + bfb8a14) *)
       let nontrivial := match o_fed m with Some _ => true | None => negb (beq (o_plain m) []) end in
       verdict same spec region nontrivial
   end.
